@@ -24,7 +24,8 @@ RULE = ('programs: S1 index forms (variables/parameters/errors, RHS and LHS offs
         'LAGS+LEADS+1..+3; every t in [-len, len); options {plain, errors=ignore, offset -1/+1, min_iter>max_iter, pre-existing NaN}; solve() over every (start, end) pair. '
         'non-trivial = solve that performs at least one evaluation pass or is rejected'
         ' Linker-driven solves: 3 scripts x lengths 4,5 x 1,2 submodels x every t in [-len, len) x every offset in [-len-1, len+1]: an offset outside the span is refused with IndexError and nothing written, otherwise only period t changes.'
-        ' catch_first_error=False with pre-existing non-finite values; linker solves restricted to one of two submodels; a second solve() refused at its first period; an alias spelled like an endogenous variable and non-finite inputs x 6 option sets: inputs are never written.')
+        ' catch_first_error=False with pre-existing non-finite values; linker solves restricted to one of two submodels; a second solve() refused at its first period; an alias spelled like an endogenous variable and non-finite inputs x 6 option sets: inputs are never written.'
+        ' Linker family also with an explicitly empty selection; the alias/non-finite-input family also with a check list that holds an exogenous variable or is narrower than the endogenous list.')
 ASSUMPTIONS = [
     'the recording arrays are installed in the instance storage the property anchors name (obj.__dict__["_" + name])',
     'an explicit request for an infeasible period may raise any exception class',
@@ -294,17 +295,18 @@ def run_block(block, tier, seed):
                         for nonfinite in (False, True):
                             if kw.get('offset') and not (0 <= t + kw['offset'] < n):
                                 continue
-                            case = dict(kind='shadow', shadow=shadow, n=n, t=t, kw=kw, nonfinite_input=nonfinite)
-                            acc.evaluations += 1
-                            acc.nontrivial += 1
-                            for key, exp, obs, what in run_shadow_case(case):
-                                acc.violation(key, case, exp, obs, what)
+                            for check_list in ((None, 'with-exogenous', 'narrowed') if not nonfinite else (None,)):
+                                case = dict(kind='shadow', shadow=shadow, n=n, t=t, kw=kw, nonfinite_input=nonfinite, check_list=check_list)
+                                acc.evaluations += 1
+                                acc.nontrivial += 1
+                                for key, exp, obs, what in run_shadow_case(case):
+                                    acc.violation(key + (':check-list-' + check_list if check_list else ''), case, exp, obs, what)
         for script in _LK_SCRIPTS:
             for n in (4, 5):
                 for nsub in (1, 2):
                     for t in range(-n, n):
                         for offset in range(-n - 1, n + 2):
-                            for select in ((False, True) if nsub == 2 else (False,)):
+                            for select in ((False, True, 'none') if nsub == 2 else (False, 'none')):
                                 case = dict(kind='linker', script=script, n=n, t=t, offset=offset, nsub=nsub, select=select)
                                 acc.evaluations += 1
                                 acc.nontrivial += 1
@@ -391,7 +393,9 @@ def run_linker_case(case):
     objs = [('linker', lk)] + list(subs.items())
     before = {tag: {name: o[name].copy() for name in o.index} for tag, o in objs}
     kw = {}
-    if case.get('select'):
+    if case.get('select') == 'none':
+        kw['submodels'] = []       # an explicitly empty selection: the linker's own equations only, no submodel is touched
+    elif case.get('select'):
         kw['submodels'] = ['s0']   # only the first submodel takes part: the others are not touched at all
     res, cause, _ = refsolve.call_outcome(lk.solve_t, t, offset=offset, max_iter=3, failures='ignore', **kw)
     out = []
@@ -407,7 +411,7 @@ def run_linker_case(case):
         stray = [x for x in touched if x[2] != pos]
         if stray:
             out.append(('linker:other-period-touched', [], stray[:4], 'a linker solve of one period changed another period'))
-        outside = [x for x in touched if case.get('select') and x[0] not in ('linker', 's0')]
+        outside = [x for x in touched if case.get('select') and (x[0] not in ('linker', 's0') or (case.get('select') == 'none' and x[0] != 'linker'))]
         if outside:
             out.append(('linker:unselected-submodel-touched', [], outside[:4], 'a linker solve restricted to one submodel changed another submodel'))
     return out
@@ -428,6 +432,10 @@ def run_shadow_case(case):
     m = (_SHADOW['cls'] if case['shadow'] else _SHADOW['plain'])(range(n))
     for j, name in enumerate(('Y', 'Z', 'X', 'a')):
         m.__dict__['_' + name][:] = [0.5 + j + 0.25 * q for q in range(n)]
+    if case.get('check_list') == 'with-exogenous':
+        m.check = list(m.check) + ['X']      # convergence is also watched on an input: it is still an input
+    elif case.get('check_list') == 'narrowed':
+        m.check = ['Z']
     if case.get('nonfinite_input'):
         m.__dict__['_X'][t] = 2.0            # Z divides by zero at t ...
         m.__dict__['_a'][t] = np.inf         # ... and a parameter is infinite there: inputs are never written to
